@@ -51,3 +51,26 @@ Section Protocol.
          (Refined (match acta with Some a => insert_after_unit a new | None => new end), f3, ins)
     else (Failed, upd_fs (upd_fs f3 FRes (f3 FBak)) FBak None, ins).          (* restore_shx_file *)
 End Protocol.
+
+(* ---- crash points: every state the file system passes through during refine() ----
+   The steps are the file operations of the protocol in program order: write the .ins, copy the .res to the backup file, copy it
+   to shxsaves, the SHELXL run (with every intermediate state of the file system while it runs: `during`), and - after a failed
+   run - copy the backup over the .res, remove the backup.  A crash (of Python, of SHELXL, of the machine) leaves the file system
+   in one of these states.  Not modelled: a copy that is interrupted half-way (copyfile is taken as atomic). *)
+Section Trace.
+  Variable shelxl : fs -> Z * fs.
+  Variable during : fs -> list fs.
+  Variable render : list str -> str.
+  Variable is_acta : str -> bool.
+  Variable set_cycles : nat -> list str -> list str.
+
+  Definition refine_trace (cycles : option nat) (lines : list str) (f : fs) : list fs :=
+    let lines1 := match cycles with Some n => set_cycles n lines | None => lines end in
+    let ins := render (without_acta is_acta lines1) in
+    let f1 := upd_fs f FIns (Some ins) in
+    let f2a := upd_fs f1 FBak (f1 FRes) in
+    let f2 := upd_fs f2a FSave (f1 FRes) in
+    let '(code, f3) := shelxl f2 in
+    [f; f1; f2a; f2] ++ during f2 ++ [f3] ++
+    (if result_ok code f3 then [] else [upd_fs f3 FRes (f3 FBak); upd_fs (upd_fs f3 FRes (f3 FBak)) FBak None]).
+End Trace.
